@@ -28,11 +28,12 @@ const (
 	c32Kp1
 	c1MComp
 	c1MRand
+	c1MZeroTail
 	nClasses
 )
 
-var classNames = []string{"empty", "1B", "32K-1", "32K", "32K+1", "1M-compressible", "1M-incompressible"}
-var classSizes = []int{0, 1, 32*1024 - 1, 32 * 1024, 32*1024 + 1, 1 << 20, 1 << 20}
+var classNames = []string{"empty", "1B", "32K-1", "32K", "32K+1", "1M-compressible", "1M-incompressible", "1M+zero-tail"}
+var classSizes = []int{0, 1, 32*1024 - 1, 32 * 1024, 32*1024 + 1, 1 << 20, 1 << 20, 1<<20 + 64*1024 + 5}
 
 var contentCache sync.Map
 
@@ -55,6 +56,11 @@ func content(class, salt int) []byte {
 	case c1MComp:
 		line := []byte(fmt.Sprintf("compressible content of file with salt %d\n", salt))
 		for i := range b {
+			b[i] = line[i%len(line)]
+		}
+	case c1MZeroTail: // a megabyte of text, then one full 64 KiB block and five more bytes of zeros (disk images, padded files)
+		line := []byte(fmt.Sprintf("content followed by padding, salt %d\n", salt))
+		for i := 0; i < 1<<20; i++ {
 			b[i] = line[i%len(line)]
 		}
 	case c1MRand:
